@@ -55,6 +55,24 @@ PROPS = {
         "level_note": "the individual verifier is the reference here (its own correctness is C02/C03/C10's business); streaming verify_multi_points takes its batching challenge from the caller, negative cases use a generic challenge",
         "technique": "explicit-state differential enumeration of batch edits on the real verifiers",
     },
+    "C06": {
+        "rule": "E1 over linear combinations: every term list of length <= 2 (quick) / 3 (thorough) over the 16 term kinds {(c,p_j),(c,One) : c in {0,1,-1,r1}, j<3} with at least one polynomial term, x query-set variants (one label; one LC at two points; two labels sharing a value; two LCs at one label; two LCs at labels sharing a value); positive: open_combinations + check_combinations accept the RefLC values; E3: claimed value +delta, verifier-side coefficient +1, constant +1, transmitted evaluations changed (singly and in cancelling pairs); combinations that mix or scale a degree-bounded polynomial must be refused; distinct = (scheme, variant/operator, decision class)",
+        "assumptions": TRUSTED,
+        "require": {"classes": ["honest-accept", "fault-reject", "bound-drop-refused"], "dims": {"scheme": ALL_SCHEMES}},
+        "level_text": "bounded exhaustive enumeration of linear combinations and query-set shapes on the real prover and verifier, with a BTreeMap-based reference evaluation of each combination and the complete catalogue of statement-side faults",
+        "design_ref": "DESIGN.md section 4 C06",
+        "level_note": "coefficients range over {0,1,-1,r1}; three committed polynomials (one hiding, one degree-bounded where the scheme has bounds)",
+        "technique": "explicit-state enumeration of operation inputs (E1) with a reference model plus fault enumeration (E3)",
+    },
+    "C07": {
+        "rule": "E1 over KZG, MAR, SON, PST, IPA, HYR: polynomial shapes x degree bounds x every hiding bound 1..key limit (and none) x points x RNG seed pairs; oracles: (i) commitment - naive_commit(p) == naive_msm(hiding generators, blinding scalars of the returned state), for plain and shifted parts and Hyrax rows; (ii) >= h+2 blinding coefficients (polynomial blinding), all non-zero and pairwise distinct, shifted part not reusing the plain part's; (iii) equal seeds reproduce commitment/state, different seeds change commitment/state/proof, 8 repeated commitments distinct, RNG byte count; (iv) proof blinding field == sum xi_i r_i(z); (v) hiding with rng=None refused; (vi) no hiding => empty state, RNG-independent; distinct = (scheme, hiding?, seed-difference)",
+        "assumptions": TRUSTED + ["hiding is decided structurally (the algebraic form and freshness of the blinding), not as a statistical indistinguishability claim"],
+        "require": {"classes": ["structure-ok", "proof-blinding-ok", "norng-refused"], "dims": {"scheme": ["KZG", "MAR", "SON", "PST", "IPA", "HYR"]}},
+        "level_text": "bounded exhaustive enumeration of hiding configurations on the real committer and prover, each compared with an independent recomputation of the blinding term from the returned commitment state and the published hiding generators, plus differential runs over all ordered pairs of RNG seeds",
+        "design_ref": "DESIGN.md section 4 C07",
+        "level_note": "RNGs handed to the library are counting ChaCha20 streams owned by the harness",
+        "technique": "explicit-state grid enumeration (E1) with structural reference identities and seed-pair differentials",
+    },
     "C10": {
         "rule": "E3 single-fault neighbourhood of accepting transcripts: every verifier-visible component (each commitment part, degree-bound label, value, point coordinate, each proof field and vector element, each verifier-key element incl. shift elements) x replacement alphabet {identity/zero, generator/one, generic, +G/+1, corresponding component of another transcript}; oracle = independent implementation of the published relation with the same challenge derivation; distinct = (scheme, component class, relation verdict, library decision class)",
         "assumptions": TRUSTED + ["Brakedown's row encoding is taken from the public LinearEncode::encode (its linearity and length are checked under C13)"],
